@@ -1,13 +1,18 @@
 /-
   C15 — property theorems over the deadline automaton and the accept loop of `Model/C15.lean`
   (only property theorems and non-vacuity examples; helper lemmas and the invariant `WF` are in
-  `Lemmas/C15.lean`).  Both defects once recorded for this property are repaired in the tree — F8 (the accept
-  loop waited for the PROXY header of every connection) and F32 (no deadline for the first tunnel byte after
-  an intercepted CONNECT) — so the clauses they falsified are proved here at full strength, for every
-  stacking; the inputs that used to be their witnesses are kept as `example`s of the repaired behaviour.
+  `Lemmas/C15.lean`).  Three defects once recorded for this property are repaired in the tree — F8 (the accept
+  loop waited for the PROXY header of every connection), F32 (no deadline for the first tunnel byte after
+  an intercepted CONNECT) and F46 (the request's read deadline stayed armed on CONNECT / upgrade tunnels) —
+  so the clauses they falsified are proved here at full strength, for every stacking; the inputs that used
+  to be their witnesses are kept as `example`s of the repaired behaviour (F46: section G, with a
+  kernel-checked witness of the pre-repair state).  One finding is OPEN: F45 (section F) — the write
+  deadline is one absolute instant, so a response whose BODY the origin delivers over more than
+  WriteTimeout is cut off although only the origin is slow: full statement, the part that holds, witness.
 
   Times are milliseconds.  The limits used in the examples are
-      L₀ = ⟨idle 400, readHeader 250, read 0 (unset), tls 300, proxyHdr 200⟩.
+      L₀ = ⟨idle 400, readHeader 250, read 0 (unset), tls 300, proxyHdr 200, write 0 (unset)⟩;
+      section F uses L₀ with write 150.
   Stackings: plain = ⟨proxy false, tls false, mitm false⟩, TLS = ⟨false, true, false⟩,
   MITM = ⟨false, false, true⟩, PROXY = ⟨true, false, false⟩, PROXY+TLS = ⟨true, true, false⟩.
 -/
@@ -26,7 +31,7 @@ theorem c15_stall_closed_at_limit (S : Stacking) (L : Limits) (c : Conn) (evs : 
     run S L c evs = .closed (c.anchor + limitOf L c.phase) c.phase c.anchor :=
   run_stalled_some (by rw [hwf]; exact dl_pos hl) evs hs
 
-example : run ⟨false, true, false⟩ ⟨400, 250, 0, 300, 200⟩ (accepted ⟨false, true, false⟩ ⟨400, 250, 0, 300, 200⟩ 7)
+example : run ⟨false, true, false⟩ ⟨400, 250, 0, 300, 200, 0⟩ (accepted ⟨false, true, false⟩ ⟨400, 250, 0, 300, 200, 0⟩ 7)
     [(20, .data), (250, .data)] = .closed 307 .tlsHandshake 7 := by decide
 
 /-- PROXY header: closed `ProxyProtocolConfig.ReadHeaderTimeout` after the connection's goroutine started
@@ -38,7 +43,7 @@ theorem c15_proxy_header_limit (S : Stacking) (L : Limits) (a : Nat) (evs : List
   rw [hacc]
   exact c15_stall_closed_at_limit S L _ evs (wf_enter ..) hl (fun x hx => by rw [hs x hx]; rfl)
 
-example : run ⟨true, true, false⟩ ⟨400, 250, 0, 300, 200⟩ (accepted ⟨true, true, false⟩ ⟨400, 250, 0, 300, 200⟩ 0)
+example : run ⟨true, true, false⟩ ⟨400, 250, 0, 300, 200, 0⟩ (accepted ⟨true, true, false⟩ ⟨400, 250, 0, 300, 200, 0⟩ 0)
     [(5, .data), (150, .data)] = .closed 200 .proxyHeader 0 := by decide
 
 /-- listener TLS handshake: closed `HandshakeTimeout` after the connection's goroutine started, however
@@ -66,7 +71,7 @@ theorem c15_tls_handshake_limit_after_proxy_header (S : Stacking) (L : Limits) (
     show max h a < d
     omega
 
-example : run ⟨true, true, false⟩ ⟨400, 250, 0, 300, 200⟩ (accepted ⟨true, true, false⟩ ⟨400, 250, 0, 300, 200⟩ 0)
+example : run ⟨true, true, false⟩ ⟨400, 250, 0, 300, 200, 0⟩ (accepted ⟨true, true, false⟩ ⟨400, 250, 0, 300, 200, 0⟩ 0)
     [(120, .complete), (130, .data)] = .closed 420 .tlsHandshake 120 := by decide
 
 /-- a connection that sends nothing at all (plain listener) is closed `idleTimeout()` after its
@@ -104,7 +109,7 @@ theorem c15_header_limit_from_first_byte (S : Stacking) (L : Limits) (s t : Nat)
     have := dl_eq_some (show dl (idleLimit L) s = some d from hd)
     rw [hm]; omega
 
-example : run ⟨false, false, false⟩ ⟨400, 250, 0, 300, 200⟩ (enter ⟨400, 250, 0, 300, 200⟩ .idle 0)
+example : run ⟨false, false, false⟩ ⟨400, 250, 0, 300, 200, 0⟩ (enter ⟨400, 250, 0, 300, 200, 0⟩ .idle 0)
     [(390, .data), (500, .data)] = .closed 640 .header 390 := by decide
 
 /-- intercepted CONNECT: the `200` is written when the request head is complete (at `t`); a client that
@@ -122,7 +127,7 @@ theorem c15_mitm_first_tunnel_byte_limit (S : Stacking) (L : Limits) (c : Conn) 
 
 /-- the input that used to be the witness of F32 (CONNECT answered with 200 by the intercepting proxy,
     then silence; ReadTimeout unset): closed one idle timeout after the 200 -/
-example : run ⟨false, false, true⟩ ⟨400, 250, 0, 300, 200⟩ (accepted ⟨false, false, true⟩ ⟨400, 250, 0, 300, 200⟩ 0)
+example : run ⟨false, false, true⟩ ⟨400, 250, 0, 300, 200, 0⟩ (accepted ⟨false, false, true⟩ ⟨400, 250, 0, 300, 200, 0⟩ 0)
     [(10, .head .connectMitm)] = .closed 410 .mitmPeek 10 := by decide
 
 /-- MITM handshake: the limit counts from the first tunnel byte after the `200` to CONNECT (the idle
@@ -138,14 +143,14 @@ theorem c15_mitm_handshake_limit (S : Stacking) (L : Limits) (c : Conn) (t : Nat
   rw [hn]
   exact c15_stall_closed_at_limit S L _ evs (wf_enter ..) hl (fun x hx => by rw [hs x hx]; rfl)
 
-example : run ⟨false, false, true⟩ ⟨400, 250, 0, 300, 200⟩ (accepted ⟨false, false, true⟩ ⟨400, 250, 0, 300, 200⟩ 0)
+example : run ⟨false, false, true⟩ ⟨400, 250, 0, 300, 200, 0⟩ (accepted ⟨false, false, true⟩ ⟨400, 250, 0, 300, 200, 0⟩ 0)
     [(10, .head .connectMitm), (350, .data), (500, .data)] = .closed 650 .mitmHandshake 350 := by decide
 
 /-! ## B. … and never before -/
 
 /-- the phases whose deadline counts from the instant the phase is entered -/
 def countedFromEntry : Phase → Bool
-  | .proxyHeader | .tlsHandshake | .idle | .header | .mitmPeek | .mitmHandshake => true
+  | .proxyHeader | .tlsHandshake | .idle | .header | .mitmPeek | .mitmHandshake | .writing => true
   | _ => false
 
 /-- whatever the peers do and whenever: if the proxy closes the connection at `t`, stalled in phase `p`
@@ -155,7 +160,7 @@ theorem c15_closed_only_at_limit (S : Stacking) (L : Limits) (a : Nat) (evs : Li
     0 < limitOf L p ∧ t = s + limitOf L p :=
   run_closed_wf evs (wf_accepted S L a) h
 
-example : run ⟨false, false, false⟩ ⟨400, 250, 0, 300, 200⟩ (accepted ⟨false, false, false⟩ ⟨400, 250, 0, 300, 200⟩ 0)
+example : run ⟨false, false, false⟩ ⟨400, 250, 0, 300, 200, 0⟩ (accepted ⟨false, false, false⟩ ⟨400, 250, 0, 300, 200, 0⟩ 0)
     [(100, .head .noBody), (2000, .complete), (2300, .data)] = .closed 2550 .header 2300 := by decide
 
 /-- the instant a deadline counts from is the instant the phase was entered (PROXY header, handshakes,
@@ -206,7 +211,7 @@ theorem c15_slow_origin_end_to_end (S : Stacking) (L : Limits) (a t₁ t₂ : Na
     have := dl_eq_some (show dl (idleLimit L) a = some d from hd)
     rw [hm]; omega
 
-example : run ⟨false, false, false⟩ ⟨400, 250, 300, 300, 200⟩ (accepted ⟨false, false, false⟩ ⟨400, 250, 300, 300, 200⟩ 0)
+example : run ⟨false, false, false⟩ ⟨400, 250, 300, 300, 200, 0⟩ (accepted ⟨false, false, false⟩ ⟨400, 250, 300, 300, 200, 0⟩ 0)
     [(10, .head .noBody), (5000, .complete)] = .closed 5400 .idle 5000 := by decide
 
 /-- a request body has no limit unless ReadTimeout is set (the header deadline is cleared) -/
@@ -227,9 +232,10 @@ def allSet (L : Limits) : Prop := 0 < L.idle ∧ 0 < L.readHeader ∧ 0 < L.tls 
 
 instance (L : Limits) : Decidable (allSet L) := by unfold allSet; exact inferInstance
 
-/-- phases in which the proxy waits for bytes of the client outside a request body -/
+/-- phases in which the proxy waits for bytes of the client outside a request body (in `writing` it
+    waits for the client to TAKE bytes: that wait is limited by WriteTimeout, section F) -/
 def clientWait : Phase → Bool
-  | .waitingForOrigin | .body => false
+  | .waitingForOrigin | .body | .writing | .tunnel => false
   | _ => true
 
 /-- full clause (F32 repaired): with the four limits configured every phase in which the proxy waits for
@@ -239,21 +245,23 @@ theorem c15_every_client_wait_limited (L : Limits) (h : allSet L) (p : Phase)
   obtain ⟨h1, h2, h3, h4⟩ := h
   cases p <;> simp_all [limitOf, idleLimit, headerLimit, clientWait]
 
-example : allSet ⟨400, 250, 0, 300, 200⟩ ∧ clientWait .mitmPeek = true := by decide
+example : allSet ⟨400, 250, 0, 300, 200, 0⟩ ∧ clientWait .mitmPeek = true := by decide
 
 /-- … hence, with the four limits configured, a connection that is still open when its peers have
     fallen silent is waiting for the origin or inside a request body — never for the client in any
-    other phase -/
+    other phase (a response the client does not take keeps it open only when WriteTimeout is unset; a
+    tunnel lives until a peer ends it) -/
 theorem c15_open_only_while_origin_or_body (S : Stacking) (L : Limits) (h : allSet L) (a : Nat)
     (evs : List (Nat × Ev)) {c : Conn} (hr : run S L (accepted S L a) evs = .stays c) :
-    c.phase = .waitingForOrigin ∨ c.phase = .body := by
+    c.phase = .waitingForOrigin ∨ c.phase = .body ∨ (c.phase = .writing ∧ L.write = 0) ∨
+      c.phase = .tunnel := by
   obtain ⟨hwf, hd⟩ := run_stays_wf evs (wf_accepted S L a) hr
   have hz : limitOf L c.phase = 0 := dl_eq_none (hwf ▸ hd)
   cases hc : clientWait c.phase with
   | true => have := c15_every_client_wait_limited L h c.phase hc; omega
-  | false => cases hph : c.phase <;> simp_all [clientWait]
+  | false => cases hph : c.phase <;> simp_all [clientWait, limitOf]
 
-example : run ⟨false, false, false⟩ ⟨400, 250, 0, 300, 200⟩ (accepted ⟨false, false, false⟩ ⟨400, 250, 0, 300, 200⟩ 0)
+example : run ⟨false, false, false⟩ ⟨400, 250, 0, 300, 200, 0⟩ (accepted ⟨false, false, false⟩ ⟨400, 250, 0, 300, 200, 0⟩ 0)
     [(10, .head .withBody), (20, .data)] = .stays ⟨.body, 10, none⟩ := by decide
 
 /-! ## E. Stalled peers cannot delay other clients: the accept loop -/
@@ -276,8 +284,8 @@ example : sameArrivals [⟨0, []⟩, ⟨3, [(9, .data)]⟩] [⟨0, [(1, .complet
     and send nothing, a third connects at the same instant and sends its complete header at once): the
     third is served at 0, exactly as behind two well-behaved peers -/
 example :
-    starts ⟨true, false, false⟩ ⟨400, 250, 0, 300, 200⟩ 0 [⟨0, []⟩, ⟨0, []⟩, ⟨0, [(0, .complete)]⟩] = [0, 0, 0] ∧
-    starts ⟨true, false, false⟩ ⟨400, 250, 0, 300, 200⟩ 0
+    starts ⟨true, false, false⟩ ⟨400, 250, 0, 300, 200, 0⟩ 0 [⟨0, []⟩, ⟨0, []⟩, ⟨0, [(0, .complete)]⟩] = [0, 0, 0] ∧
+    starts ⟨true, false, false⟩ ⟨400, 250, 0, 300, 200, 0⟩ 0
       [⟨0, [(0, .complete)]⟩, ⟨0, [(0, .complete)]⟩, ⟨0, [(0, .complete)]⟩] = [0, 0, 0] := by decide
 
 /-- neither the stacking nor the limits enter the accept loop: a PROXY-protocol (or PROXY+TLS) listener
@@ -286,8 +294,8 @@ theorem c15_service_start_same_for_every_stacking (S S' : Stacking) (L L' : Limi
     (ps : List Peer) : starts S L free ps = starts S' L' free ps := by
   rw [starts_eq, starts_eq]
 
-example : starts ⟨true, true, false⟩ ⟨400, 250, 0, 300, 0⟩ 0 [⟨0, []⟩, ⟨7, [(9, .complete)]⟩]
-    = starts ⟨false, false, false⟩ ⟨400, 250, 0, 300, 200⟩ 0 [⟨0, []⟩, ⟨7, [(9, .complete)]⟩] := by decide
+example : starts ⟨true, true, false⟩ ⟨400, 250, 0, 300, 0, 0⟩ 0 [⟨0, []⟩, ⟨7, [(9, .complete)]⟩]
+    = starts ⟨false, false, false⟩ ⟨400, 250, 0, 300, 200, 0⟩ 0 [⟨0, []⟩, ⟨7, [(9, .complete)]⟩] := by decide
 
 /-- … and it is the arrival instant itself: every client is handed to its goroutine the moment it
     connects (connections arrive in queue order, the loop is free before the first arrives) -/
@@ -296,7 +304,7 @@ theorem c15_service_start_is_arrival (S : Stacking) (L : Limits) (free : Nat)
     starts S L free ps = ps.map fun p => p.arrive := by
   rw [starts_eq, runningMax_sorted free _ hsorted]
 
-example : starts ⟨true, true, false⟩ ⟨400, 250, 0, 300, 200⟩ 0 [⟨0, []⟩, ⟨0, []⟩, ⟨5, [(5, .complete)]⟩]
+example : starts ⟨true, true, false⟩ ⟨400, 250, 0, 300, 200, 0⟩ 0 [⟨0, []⟩, ⟨0, []⟩, ⟨5, [(5, .complete)]⟩]
     = [0, 0, 5] := by decide
 
 /-- a client is never handed to its goroutine before it connected -/
@@ -317,7 +325,7 @@ theorem c15_stalled_peers_do_not_delay (S : Stacking) (L : Limits) (pre : List P
     (by intro a ha; obtain ⟨p, hp, rfl⟩ := List.mem_map.mp ha; exact hpre p hp)
   simpa using this
 
-example : (starts ⟨true, true, false⟩ ⟨400, 250, 0, 300, 200⟩ 0
+example : (starts ⟨true, true, false⟩ ⟨400, 250, 0, 300, 200, 0⟩ 0
     ([⟨0, []⟩, ⟨1, [(3, .data)]⟩, ⟨2, [(2, .complete), (4, .data)]⟩] ++ [⟨2, [(2, .complete)]⟩]))[3]? = some 2 := by
   decide
 
@@ -329,9 +337,9 @@ theorem c15_outcome_independent (S : Stacking) (L : Limits) (free : Nat)
   unfold outcomeOf
   rw [serve_eq, serve_eq, h, hk]
 
-example : outcomeOf ⟨true, true, false⟩ ⟨400, 250, 0, 300, 200⟩ 0 [⟨0, []⟩, ⟨0, [(5, .data)]⟩, ⟨0, [(0, .complete)]⟩] 2
+example : outcomeOf ⟨true, true, false⟩ ⟨400, 250, 0, 300, 200, 0⟩ 0 [⟨0, []⟩, ⟨0, [(5, .data)]⟩, ⟨0, [(0, .complete)]⟩] 2
     = some (.closed 300 .tlsHandshake 0) ∧
-    outcomeOf ⟨true, true, false⟩ ⟨400, 250, 0, 300, 200⟩ 0
+    outcomeOf ⟨true, true, false⟩ ⟨400, 250, 0, 300, 200, 0⟩ 0
       [⟨0, [(0, .complete)]⟩, ⟨0, [(0, .complete), (1, .complete)]⟩, ⟨0, [(0, .complete)]⟩] 2
     = some (.closed 300 .tlsHandshake 0) := by decide
 
@@ -351,7 +359,7 @@ theorem c15_proxy_stalled_peers_closed_on_time (S : Stacking) (L : Limits) (hS :
 /-- the input that used to show the stalled peers closed one after the other (at 200, 400, 600): each is
     closed 200 ms after it connected -/
 example :
-    (List.range 3).map (outcomeOf ⟨true, false, false⟩ ⟨400, 250, 0, 300, 200⟩ 0
+    (List.range 3).map (outcomeOf ⟨true, false, false⟩ ⟨400, 250, 0, 300, 200, 0⟩ 0
         [⟨0, []⟩, ⟨0, [(20, .data)]⟩, ⟨0, []⟩]) =
       [some (.closed 200 .proxyHeader 0), some (.closed 200 .proxyHeader 0),
        some (.closed 200 .proxyHeader 0)] := by decide
@@ -359,11 +367,256 @@ example :
 /-- with the PROXY header timeout switched off a silent peer keeps its own connection open for ever —
     and the listener goes on accepting -/
 example :
-    starts ⟨true, false, false⟩ ⟨400, 250, 0, 300, 0⟩ 0 [⟨0, []⟩, ⟨0, [(0, .complete)]⟩] = [0, 0] ∧
-    outcomeOf ⟨true, false, false⟩ ⟨400, 250, 0, 300, 0⟩ 0 [⟨0, []⟩, ⟨0, [(0, .complete)]⟩] 0
+    starts ⟨true, false, false⟩ ⟨400, 250, 0, 300, 0, 0⟩ 0 [⟨0, []⟩, ⟨0, [(0, .complete)]⟩] = [0, 0] ∧
+    outcomeOf ⟨true, false, false⟩ ⟨400, 250, 0, 300, 0, 0⟩ 0 [⟨0, []⟩, ⟨0, [(0, .complete)]⟩] 0
       = some (.stays ⟨.proxyHeader, 0, none⟩) ∧
-    outcomeOf ⟨true, false, false⟩ ⟨400, 250, 0, 300, 0⟩ 0 [⟨0, []⟩, ⟨0, [(0, .complete)]⟩] 1
+    outcomeOf ⟨true, false, false⟩ ⟨400, 250, 0, 300, 0, 0⟩ 0 [⟨0, []⟩, ⟨0, [(0, .complete)]⟩] 1
       = some (.closed 400 .idle 0) := by decide
+
+/-! ## F. The write deadline: armed when the proxy starts writing the response, never while it waits for the origin
+
+`writeStart` (`ws` below) = the instant `writeResponse` is entered: the origin's response head, the dialled
+CONNECT target or the proxy's own error response is at hand.  L₁ = L₀ with WriteTimeout 150. -/
+
+/-- `SetWriteDeadline(now + WriteTimeout)` stands in `writeResponse`: the write deadline is armed at
+    `writeStart` and counts from there — not from the instant the request was read -/
+theorem c15_write_deadline_armed_at_write_start (S : Stacking) (L : Limits) (c : Conn) (ws : Nat)
+    (hp : c.phase = .waitingForOrigin) :
+    next S L c ws .respStart = ⟨.writing, ws, dl L.write ws⟩ ∧
+      armed (next S L c ws .respStart) .write = dl L.write ws := by
+  simp [next, hp, enter, limitOf, armed, timerOf]
+
+/-- while the proxy waits for the origin NO client-side deadline of any kind is armed — stated over the
+    whole deadline set (read, handshake, write), whatever the limits: the proxy has no operation pending
+    on the client socket and the state carries no closing instant -/
+theorem c15_waiting_for_origin_no_deadline_of_any_kind (L : Limits) (c : Conn)
+    (hp : c.phase = .waitingForOrigin) (hwf : WF L c) :
+    timerOf c.phase = none ∧ c.deadline = none ∧ ∀ k : Timer, armed c k = none := by
+  have hd : c.deadline = none := by rw [hwf, hp]; exact dl_zero _
+  refine ⟨by rw [hp]; rfl, hd, fun k => ?_⟩
+  simp [armed, hp, timerOf]
+
+/-- … and every run of the automaton reaches `waitingForOrigin` only in such a state: whatever the peers
+    did before, for every stacking and all limits (WriteTimeout, ReadTimeout, IdleTimeout … set or not) -/
+theorem c15_request_received_no_deadline_of_any_kind (S : Stacking) (L : Limits) (c : Conn) (t : Nat) (e : Ev)
+    (hwf : WF L c) (hp : (next S L c t e).phase = .waitingForOrigin) (k : Timer) :
+    armed (next S L c t e) k = none :=
+  (c15_waiting_for_origin_no_deadline_of_any_kind L _ hp (wf_next t e hwf)).2.2 k
+
+example : ∀ k : Timer, armed (next ⟨false, false, false⟩ ⟨400, 250, 300, 300, 200, 150⟩
+    (enter ⟨400, 250, 300, 300, 200, 150⟩ .header 5) 9 (.head .noBody)) k = none := by
+  intro k; cases k <;> decide
+
+/-- for ANY origin latency (any `t`, however late): if the connection is ever closed after the origin
+    answered, it is closed in a phase that began at `writeStart` or later, a full limit of that phase after
+    it began — in particular never before `writeStart`, and a close in the phase `writing` that began at
+    `writeStart` happens exactly at `writeStart + WriteTimeout` -/
+theorem c15_not_closed_before_write_start_plus_limit (S : Stacking) (L : Limits) (c : Conn)
+    (hp : c.phase = .waitingForOrigin) (hwf : WF L c) (t : Nat) (evs : List (Nat × Ev))
+    {u s : Nat} {p : Phase} (h : run S L c ((t, .respStart) :: evs) = .closed u p s) :
+    max t c.anchor ≤ s ∧ 0 < limitOf L p ∧ u = s + limitOf L p ∧
+      (p = .writing → s = max t c.anchor → u = max t c.anchor + L.write) := by
+  have hd : c.deadline = none := by rw [hwf, hp]; exact dl_zero _
+  rw [run_cons_before evs (by intro d h'; rw [hd] at h'; cases h')] at h
+  have hn : next S L c (max t c.anchor) .respStart = enter L .writing (max t c.anchor) := by simp [next, hp]
+  rw [hn] at h
+  have ha := run_closed_anchor_ge evs h
+  obtain ⟨hl, hu⟩ := run_closed_wf evs (wf_enter L .writing (max t c.anchor)) h
+  refine ⟨ha, hl, hu, fun hpw hs => ?_⟩
+  subst hpw
+  rw [hu, hs]; rfl
+
+/-- the dual: the CLIENT is the slow one.  The origin answered at `ws` (however late), the client does not
+    take the response (or takes parts of it: no part extends the deadline): cut off exactly at
+    `writeStart + WriteTimeout` -/
+theorem c15_client_not_reading_cut_at_write_limit (S : Stacking) (L : Limits) (c : Conn)
+    (hp : c.phase = .waitingForOrigin) (hwf : WF L c) (hl : 0 < L.write) (t : Nat) (evs : List (Nat × Ev))
+    (hs : ∀ x ∈ evs, x.2 = .data) :
+    run S L c ((t, .respStart) :: evs) = .closed (max t c.anchor + L.write) .writing (max t c.anchor) := by
+  have hd : c.deadline = none := by rw [hwf, hp]; exact dl_zero _
+  rw [run_cons_before evs (by intro d h'; rw [hd] at h'; cases h')]
+  have hn : next S L c (max t c.anchor) .respStart = enter L .writing (max t c.anchor) := by simp [next, hp]
+  rw [hn]
+  exact c15_stall_closed_at_limit S L _ evs (wf_enter ..) hl (fun x hx => by rw [hs x hx]; rfl)
+
+/-- request at 10, origin answers at 2000 (13 write timeouts later), client does not read: cut at 2150 -/
+example : run ⟨false, false, false⟩ ⟨400, 250, 0, 300, 200, 150⟩ (accepted ⟨false, false, false⟩ ⟨400, 250, 0, 300, 200, 150⟩ 0)
+    [(10, .head .noBody), (2000, .respStart), (2100, .data)] = .closed 2150 .writing 2000 := by decide
+
+/-- with WriteTimeout unset a client that does not take the response is never cut off -/
+theorem c15_write_unlimited_without_write_timeout (S : Stacking) (L : Limits) (c : Conn)
+    (hp : c.phase = .waitingForOrigin) (hwf : WF L c) (hw : L.write = 0) (t : Nat) (evs : List (Nat × Ev))
+    (hs : ∀ x ∈ evs, x.2 = .data) :
+    run S L c ((t, .respStart) :: evs) = .stays ⟨.writing, max t c.anchor, none⟩ := by
+  have hd : c.deadline = none := by rw [hwf, hp]; exact dl_zero _
+  rw [run_cons_before evs (by intro d h'; rw [hd] at h'; cases h')]
+  have hn : next S L c (max t c.anchor) .respStart = ⟨.writing, max t c.anchor, none⟩ := by
+    simp [next, hp, enter, limitOf, hw, dl_zero]
+  rw [hn]
+  exact run_stalled_none rfl evs (fun x hx => by rw [hs x hx]; rfl)
+
+/-- end to end on a plain listener, every limit configured: request head at `t₁`, the origin's answer at
+    `t₂` — ARBITRARILY late, later than every limit —, relayed completely at `t₃` within WriteTimeout of
+    `t₂`: the client has its response and the connection lives on until `t₃ + idleTimeout()` -/
+theorem c15_slow_origin_response_delivered (S : Stacking) (L : Limits) (a t₁ t₂ t₃ : Nat)
+    (hP : S.proxy = false) (hT : S.tls = false) (h1 : a ≤ t₁) (h2 : t₁ ≤ t₂) (h3 : t₂ ≤ t₃)
+    (hi : idleLimit L = 0 ∨ t₁ < a + idleLimit L) (hw : L.write = 0 ∨ t₃ < t₂ + L.write)
+    (hl : 0 < idleLimit L) :
+    run S L (accepted S L a) [(t₁, .head .noBody), (t₂, .respStart), (t₃, .complete)]
+      = .closed (t₃ + idleLimit L) .idle t₃ := by
+  have hacc : accepted S L a = enter L .idle a := by simp [accepted, hP, hT]
+  have hm : max t₁ (enter L .idle a).anchor = t₁ := Nat.max_eq_left h1
+  rw [hacc, run_cons_before, hm]
+  · have hn : next S L (enter L .idle a) t₁ (.head .noBody) = ⟨.waitingForOrigin, t₁, none⟩ := rfl
+    rw [hn, run_cons_before _ (by intro d h'; cases h')]
+    have hm2 : max t₂ t₁ = t₂ := Nat.max_eq_left h2
+    have hn2 : next S L ⟨.waitingForOrigin, t₁, none⟩ (max t₂ (Conn.mk .waitingForOrigin t₁ none).anchor) .respStart
+        = enter L .writing t₂ := by simp [next, hm2]
+    rw [hn2, run_cons_before]
+    · have hm3 : max t₃ (enter L .writing t₂).anchor = t₃ := Nat.max_eq_left h3
+      have hn3 : next S L (enter L .writing t₂) t₃ .complete = enter L .idle t₃ := rfl
+      rw [hm3, hn3]
+      exact c15_stall_closed_at_limit S L _ [] (wf_enter ..) hl (fun _ hx => by cases hx)
+    · intro d hd
+      have := dl_eq_some (show dl L.write t₂ = some d from hd)
+      have hm3 : max t₃ (enter L .writing t₂).anchor = t₃ := Nat.max_eq_left h3
+      rw [hm3]; omega
+  · intro d hd
+    have := dl_eq_some (show dl (idleLimit L) a = some d from hd)
+    rw [hm]; omega
+
+/-- idle 400, header 250, ReadTimeout 300, WriteTimeout 150: the origin answers after 5 s -/
+example : run ⟨false, false, false⟩ ⟨400, 250, 300, 300, 200, 150⟩ (accepted ⟨false, false, false⟩ ⟨400, 250, 300, 300, 200, 150⟩ 0)
+    [(10, .head .noBody), (5000, .respStart), (5020, .complete)] = .closed 5420 .idle 5020 := by decide
+
+/-- F45 (open).  The write deadline is ONE absolute instant (as net/http's): parts of the response that are relayed do
+    not extend it.  FULL clause for a slow origin BODY — "as long as the relay progresses (a part relayed
+    less than WriteTimeout ago) the connection is not closed" — is therefore FALSE of the code: a response
+    whose body the origin delivers over more than WriteTimeout is cut off at `writeStart + WriteTimeout`
+    although the client keeps up.  (`c15_slow_origin_response_delivered` is the part that holds: responses
+    relayed within WriteTimeout of `writeStart`, whatever the latency of their head.) -/
+def c15_full_statement_progressing_response : Prop :=
+  ∀ (S : Stacking) (L : Limits) (c : Conn), c.phase = .waitingForOrigin → WF L c →
+    ∀ ws t₁ u p s, c.anchor ≤ ws → ws ≤ t₁ → t₁ < ws + L.write →
+      run S L c [(ws, .respStart), (t₁, .data)] = .closed u p s → t₁ + L.write ≤ u
+
+/-- kernel-checked witness: WriteTimeout 150, head relayed at 100, a part of the body at 200 — closed at 250,
+    not at 350 -/
+theorem c15_full_statement_progressing_response_witness : ¬ c15_full_statement_progressing_response := by
+  intro h
+  have := h ⟨false, false, false⟩ ⟨400, 250, 0, 300, 200, 150⟩ ⟨.waitingForOrigin, 10, none⟩ rfl
+    rfl 100 200 250 .writing 100 (by decide) (by decide) (by decide) (by decide)
+  simp at this
+
+/-! ### the variant with the write deadline armed at request-read is refuted -/
+
+/-- what F states of the code, as a decidable predicate on an outcome: a connection whose origin answered at
+    `ws` is not closed in a phase that began before `ws` -/
+def closedOnlyAfterWriteStart (ws : Nat) : Outcome → Bool
+  | .closed _ _ s => decide (ws ≤ s)
+  | .stays _ => true
+
+/-- the code: holds for every latency and every continuation (restatement of
+    `c15_not_closed_before_write_start_plus_limit` in the decidable form used for the variant) -/
+theorem c15_code_closes_only_after_write_start (S : Stacking) (L : Limits) (c : Conn)
+    (hp : c.phase = .waitingForOrigin) (hwf : WF L c) (t : Nat) (evs : List (Nat × Ev)) :
+    closedOnlyAfterWriteStart (max t c.anchor) (run S L c ((t, .respStart) :: evs)) = true := by
+  cases hr : run S L c ((t, .respStart) :: evs) with
+  | stays c' => rfl
+  | closed u p s =>
+    have := (c15_not_closed_before_write_start_plus_limit S L c hp hwf t evs hr).1
+    simp [closedOnlyAfterWriteStart, this]
+
+/-- the variant (`nextV/runV`: `SetWriteDeadline` at the end of `readRequest`) violates it — kernel-checked
+    witness: WriteTimeout 150, request at 10, origin answers at 500.  The code delivers the response and
+    closes the idle connection at 910; the variant loses the connection at the instant the origin answers
+    (the write deadline expired at 160, during the round trip) -/
+theorem c15_write_deadline_at_request_read_refuted :
+    ∃ (S : Stacking) (L : Limits) (a ws : Nat) (evs : List (Nat × Ev)),
+      evs = [(10, .head .noBody), (ws, .respStart), (510, .complete)] ∧
+      run S L (accepted S L a) evs = .closed 910 .idle 510 ∧
+      closedOnlyAfterWriteStart ws (run S L (accepted S L a) evs) = true ∧
+      runV S L ⟨accepted S L a, none⟩ evs = .closed 500 .waitingForOrigin 10 ∧
+      closedOnlyAfterWriteStart ws (runV S L ⟨accepted S L a, none⟩ evs) = false :=
+  ⟨⟨false, false, false⟩, ⟨400, 250, 0, 300, 200, 150⟩, 0, 500, _, rfl, by decide, by decide, by decide, by decide⟩
+
+/-- … whereas with an origin faster than WriteTimeout the variant and the code cannot be told apart (which is
+    why only slow-origin runs distinguish them) -/
+example : runV ⟨false, false, false⟩ ⟨400, 250, 0, 300, 200, 150⟩ ⟨accepted ⟨false, false, false⟩ ⟨400, 250, 0, 300, 200, 150⟩ 0, none⟩
+      [(10, .head .noBody), (100, .respStart), (110, .complete)] = .closed 510 .idle 110 ∧
+    run ⟨false, false, false⟩ ⟨400, 250, 0, 300, 200, 150⟩ (accepted ⟨false, false, false⟩ ⟨400, 250, 0, 300, 200, 150⟩ 0)
+      [(10, .head .noBody), (100, .respStart), (110, .complete)] = .closed 510 .idle 110 := by decide
+
+/-! ## G. Tunnels (CONNECT answered 2xx, 101 upgrades): no request limit applies to tunnelled traffic
+
+F46 (repaired): `tunnel` clears the read deadline of the request that opened the tunnel before `bicopy`.
+L₂ = L₀ with ReadTimeout 400 and WriteTimeout 150. -/
+
+/-- in the tunnel phase NO client-side deadline of any kind (read, handshake, write) is armed, whatever the
+    limits — ReadTimeout, IdleTimeout, WriteTimeout set or not — and however the tunnel was reached (directly
+    from the wait for the target, or after the 2xx / 101 head was written) -/
+theorem c15_tunnel_no_deadline_of_any_kind (S : Stacking) (L : Limits) (c : Conn) (t : Nat)
+    (hp : c.phase = .waitingForOrigin ∨ c.phase = .writing) :
+    (next S L c t .tunnelUp).phase = .tunnel ∧ (next S L c t .tunnelUp).deadline = none ∧
+      ∀ k : Timer, armed (next S L c t .tunnelUp) k = none := by
+  rcases hp with hp | hp <;> simp [next, hp, enter, limitOf, dl_zero, armed, timerOf]
+
+/-- a tunnel is never cut by a request limit: whatever the peers send and whenever (any events at any
+    instants, for ever), the proxy does not close it -/
+theorem c15_tunnel_never_cut (S : Stacking) (L : Limits) (c : Conn) (hp : c.phase = .tunnel)
+    (hd : c.deadline = none) (evs : List (Nat × Ev)) : run S L c evs = .stays c := by
+  induction evs with
+  | nil => exact run_nil_none hd
+  | cons x rest ih =>
+    obtain ⟨t, e⟩ := x
+    rw [run_cons_before rest (by intro d h; rw [hd] at h; cases h)]
+    have hn : next S L c (max t c.anchor) e = c := by
+      cases e <;> simp [next, hp]
+    rw [hn]; exact ih
+
+/-- end to end on a plain listener, every limit set: CONNECT (or an upgrade request) complete at `t₁`, the
+    target connected at `t₂` — arbitrarily late, later than ReadTimeout —, then any traffic: never closed -/
+theorem c15_tunnel_outlives_every_limit (S : Stacking) (L : Limits) (a t₁ t₂ : Nat) (evs : List (Nat × Ev))
+    (hP : S.proxy = false) (hT : S.tls = false) (h1 : a ≤ t₁) (h2 : t₁ ≤ t₂)
+    (hi : idleLimit L = 0 ∨ t₁ < a + idleLimit L) :
+    run S L (accepted S L a) ((t₁, .head .noBody) :: (t₂, .tunnelUp) :: evs) = .stays ⟨.tunnel, t₂, none⟩ := by
+  have hacc : accepted S L a = enter L .idle a := by simp [accepted, hP, hT]
+  have hm : max t₁ (enter L .idle a).anchor = t₁ := Nat.max_eq_left h1
+  rw [hacc, run_cons_before, hm]
+  · have hn : next S L (enter L .idle a) t₁ (.head .noBody) = ⟨.waitingForOrigin, t₁, none⟩ := rfl
+    rw [hn, run_cons_before _ (by intro d h'; cases h')]
+    have hm2 : max t₂ t₁ = t₂ := Nat.max_eq_left h2
+    have hn2 : next S L ⟨.waitingForOrigin, t₁, none⟩ (max t₂ (Conn.mk .waitingForOrigin t₁ none).anchor) .tunnelUp
+        = ⟨.tunnel, t₂, none⟩ := by simp [next, hm2, enter, limitOf, dl_zero]
+    rw [hn2]
+    exact c15_tunnel_never_cut S L _ rfl rfl evs
+  · intro d hd
+    have := dl_eq_some (show dl (idleLimit L) a = some d from hd)
+    rw [hm]; omega
+
+/-- ReadTimeout 400, WriteTimeout 150: CONNECT at 10, target connected at 900, traffic at 5000 and 9000 -/
+example : run ⟨false, false, false⟩ ⟨400, 250, 400, 300, 200, 150⟩ (accepted ⟨false, false, false⟩ ⟨400, 250, 400, 300, 200, 150⟩ 0)
+    [(10, .head .noBody), (900, .respStart), (900, .tunnelUp), (5000, .data), (9000, .data)]
+      = .stays ⟨.tunnel, 900, none⟩ := by decide
+
+/-- kernel-checked witness of the PRE-REPAIR behaviour (F46): with the request's read deadline inherited
+    (`tunnelInherited`) the tunnel is cut at requestStart + ReadTimeout however active it is — CONNECT's first
+    byte at 10, ReadTimeout 400: a fast target's tunnel (up at 20, traffic at 200 and 300) is cut at 410, and
+    a tunnel whose target took until 900 is dead on arrival; the repaired automaton keeps both open.  The
+    inherited state is not a state of the automaton (it is not well-formed) -/
+theorem c15_tunnel_read_deadline_inherited_witness :
+    run ⟨false, false, false⟩ ⟨400, 250, 400, 300, 200, 150⟩
+        (tunnelInherited ⟨400, 250, 400, 300, 200, 150⟩ ⟨.waitingForOrigin, 10, none⟩) [(200, .data), (300, .data), (500, .data)]
+      = .closed 410 .tunnel 10 ∧
+    run ⟨false, false, false⟩ ⟨400, 250, 400, 300, 200, 150⟩
+        (tunnelInherited ⟨400, 250, 400, 300, 200, 150⟩ ⟨.waitingForOrigin, 10, none⟩) [(900, .data)]
+      = .closed 410 .tunnel 10 ∧
+    run ⟨false, false, false⟩ ⟨400, 250, 400, 300, 200, 150⟩
+        (next ⟨false, false, false⟩ ⟨400, 250, 400, 300, 200, 150⟩ ⟨.waitingForOrigin, 10, none⟩ 20 .tunnelUp)
+        [(200, .data), (300, .data), (500, .data)] = .stays ⟨.tunnel, 20, none⟩ ∧
+    ¬ WF ⟨400, 250, 400, 300, 200, 150⟩ (tunnelInherited ⟨400, 250, 400, 300, 200, 150⟩ ⟨.waitingForOrigin, 10, none⟩) := by
+  refine ⟨by decide, by decide, by decide, ?_⟩
+  simp [WF, tunnelInherited, limitOf, dl]
 
 end C15
 end FwdVerif
